@@ -142,20 +142,10 @@ Proof.
   - intros k' ty' t' v' Hin. eapply He. right; exact Hin.
 Qed.
 
-Definition no_time_field (batch : list bpoint) : Prop :=
-  forall p f, In p batch -> In f (b_fields p) -> name_eqb (f_key f) TIME = false.
-
-Lemma entries_spec l :
-  no_time_field l -> entries (map to_w l) = spec_entries l.
+Lemma entries_spec l : entries (map to_w l) = spec_entries l.
 Proof.
-  induction l as [|p l IH]; intro H; [reflexivity|].
-  unfold entries, spec_entries in *. cbn [map flat_map]. rewrite IH.
-  2:{ intros q f Hq Hf. apply (H q f); [right; exact Hq | exact Hf]. }
-  f_equal. cbn [to_w w_fields w_meas w_series w_time].
-  assert (Hp : forall f, In f (b_fields p) -> name_eqb (f_key f) TIME = false)
-    by (intros f Hf; apply (H p f); [left; reflexivity | exact Hf]).
-  induction (b_fields p) as [|f fs IHf]; [reflexivity|]. cbn [map flat_map].
-  rewrite (Hp f (or_introl eq_refl)). cbn [app]. f_equal. apply IHf. intros g Hg. apply Hp. right; exact Hg.
+  induction l as [|p l IH]; [reflexivity|].
+  unfold entries, spec_entries in *. cbn [map flat_map]. rewrite IH. reflexivity.
 Qed.
 
 Lemma accepted_sub vk sch batch p : In p (accepted vk sch batch) -> In p batch /\ point_fits sch (to_w p) = true.
@@ -163,26 +153,26 @@ Proof.
   unfold accepted. intro H. apply filter_In in H as [H1 H2]. apply andb_true_iff in H2 as [_ H2]. auto.
 Qed.
 
-Lemma accepted_typed vk sch batch :
-  no_time_field batch -> ents_typed sch (spec_entries (accepted vk sch batch)).
+Lemma accepted_typed vk sch batch : ents_typed sch (spec_entries (accepted vk sch batch)).
 Proof.
-  intros Hnt k ty t v Hin. unfold spec_entries in Hin.
+  intros k ty t v Hin. unfold spec_entries in Hin.
   apply in_flat_map in Hin as [p [Hp Hin]]. apply in_flat_map in Hin as [f [Hf Hin]].
   destruct (accepted_sub _ _ _ _ Hp) as [Hb Hfit].
-  rewrite (Hnt p f Hb Hf) in Hin. destruct Hin as [E|[]]. inversion E; subst. cbn.
+  destruct (name_eqb (f_key f) TIME) eqn:Et; [contradiction|].
+  destruct Hin as [E|[]]. inversion E; subst. cbn.
   unfold point_fits in Hfit. apply andb_true_iff in Hfit as [_ Hfit]. rewrite forallb_forall in Hfit.
   specialize (Hfit f Hf). unfold field_fits in Hfit. cbn [to_w w_meas] in Hfit.
-  apply andb_true_iff in Hfit as [_ Hfit]. rewrite (Hnt p f Hb Hf) in Hfit. cbn in Hfit.
+  apply andb_true_iff in Hfit as [_ Hfit]. rewrite Et in Hfit. cbn in Hfit.
   destruct (ftype sch (b_meas p) (f_key f)) as [t0|]; [|discriminate]. cbn in Hfit.
   apply N.eqb_eq in Hfit; subst. reflexivity.
 Qed.
 
-(** For batches without a field named time, on a store whose cached types agree with the
-    schema: no engine conflict; cache and WAL become the previous content plus the fields of
-    exactly the accepted points; the agreement is preserved (so the statement chains). *)
+(** On a store whose cached types agree with the schema, for EVERY batch: no engine conflict;
+    cache and WAL become the previous content plus the non-time fields of exactly the accepted
+    points; the agreement is preserved (so the statement chains). *)
 Lemma accepted_stored vk e batch e' err dr :
   write_points vk e batch = (e', err, dr) ->
-  no_time_field batch -> store_typed (e_schema e) (e_cache e) ->
+  store_typed (e_schema e) (e_cache e) ->
   let accB := accepted vk (e_schema e') batch in
   err <> 2%N /\
   e_cache e' = spec_store (e_cache e) accB /\ e_wal e' = spec_store (e_wal e) accB /\
@@ -191,12 +181,10 @@ Proof.
   unfold write_points.
   destruct (validate_points (e_schema e) (map to_w (filter (key_ok vk) batch))) as [[[[sch cr] acc] d2] st] eqn:Ev.
   destruct (engine_gets_accepted _ _ _ _ _ _ _ _ Ev) as [He [Ha Hn]].
-  intros H Hnt Hty.
-  assert (Hnt' : no_time_field (accepted vk sch batch)).
-  { intros p f Hp Hf. destruct (accepted_sub _ _ _ _ Hp) as [Hb _]. eapply Hnt; eassumption. }
-  assert (Hents : entries acc = spec_entries (accepted vk sch batch)) by (rewrite Ha; apply entries_spec; exact Hnt').
+  intros H Hty.
+  assert (Hents : entries acc = spec_entries (accepted vk sch batch)) by (rewrite Ha; apply entries_spec).
   assert (Hty' : store_typed sch (e_cache e)) by (eapply store_typed_ext; eassumption).
-  assert (Het : ents_typed sch (entries acc)) by (rewrite Hents; apply accepted_typed; exact Hnt).
+  assert (Het : ents_typed sch (entries acc)) by (rewrite Hents; apply accepted_typed).
   assert (Hnc : forall k, conflict (e_cache e) (entries acc) k = false) by (intro k; eapply no_conflict; eassumption).
   assert (Hconf : existsb (fun '(k, _, _, _) => conflict (e_cache e) (entries acc) k) (entries acc) = false).
   { destruct (existsb _ (entries acc)) eqn:E; [|reflexivity].
@@ -206,4 +194,29 @@ Proof.
   rewrite (put_all_skip_ext (entries acc) (e_cache e) _ (fun _ => false) Hnc), Hents.
   split; [reflexivity|]. split; [reflexivity|].
   apply put_all_typed; [exact Hty'|]. rewrite <- Hents. exact Het.
+Qed.
+
+(** * Histories: every state reachable from the empty shard has a typed cache. *)
+Fixpoint run_batches (vk : bool) (e : estate) (bs : list (list bpoint)) : estate :=
+  match bs with [] => e | b :: r => run_batches vk (fst (fst (write_points vk e b))) r end.
+
+Lemma reachable_typed vk bs : forall e,
+  store_typed (e_schema e) (e_cache e) ->
+  store_typed (e_schema (run_batches vk e bs)) (e_cache (run_batches vk e bs)).
+Proof.
+  induction bs as [|b bs IH]; intros e H; cbn; [exact H|]. apply IH.
+  destruct (write_points vk e b) as [[e' err] dr] eqn:E. cbn.
+  exact (proj2 (proj2 (proj2 (accepted_stored _ _ _ _ _ _ E H)))).
+Qed.
+
+Lemma accepted_stored_history vk bs batch e' err dr :
+  write_points vk (run_batches vk estate0 bs) batch = (e', err, dr) ->
+  let e := run_batches vk estate0 bs in
+  let accB := accepted vk (e_schema e') batch in
+  err <> 2%N /\ e_cache e' = spec_store (e_cache e) accB /\ e_wal e' = spec_store (e_wal e) accB.
+Proof.
+  intros H e accB.
+  assert (Ht : store_typed (e_schema e) (e_cache e)).
+  { apply reachable_typed. intros k ty vs Hk. discriminate. }
+  destruct (accepted_stored _ _ _ _ _ _ H Ht) as [H1 [H2 [H3 _]]]. auto.
 Qed.
